@@ -40,8 +40,12 @@ FRAGS = ["'", '"', "`", "\\", "$", "$(", ")", "(", "${", "}", "{", "|", "||", "&
          "0.5", "!", "!!", "%", "[", "]", "?", "\t", "alias", "alias Qz='vp_argv'", "Qz", "export", "cd", "unset", "read Qv <<< a",
          "source", "history", "jobs", "fg", "bg", "set -e", "ulimit -n", "vox", "cinfo", "minfd", "exec", "\\\n", "\\$", "\\|",
          "$(vp_out K)", "`vp_out K`", "$(vp_out >)", "$(", "$()", "``", "1 + ", "(", "((", "))", "{,}", "{..}", "{1..}", "{1..9999999999}",
-         "alias Qr='vp_argv $(Qr)' ; Qr", "alias Qs='Qs' ; Qs", "{1..3..0}", "{-5..5..2}", "{2147483646..2147483647}", "{-2147483647..-2147483648}", "{1..3..2147483647}", "{2147483640..2147483647..5}", "a" * 50, "'" * 3, "\\" * 3, "🙂", "́", "​", "\u3000", "\u00a0", "\u2003", "\\\u3000", "\\\u00a0"]
+         "alias Qr='vp_argv $(Qr)' ; Qr", "alias Qs='Qs' ; Qs", "{1..3..0}", "{-5..5..2}", "{2147483646..2147483647}", "{-2147483647..-2147483648}", "{1..3..2147483647}", "{2147483640..2147483647..5}",
+         # ranges far too large to build (the shell must refuse them, not try)
+         "{1..2147483647}", "{-2147483648..2147483647}", "x{0..999999999}y", "{2000000000..-2000000000..3}", "a" * 50, "'" * 3, "\\" * 3, "🙂", "́", "​", "\u3000", "\u00a0", "\u2003", "\\\u3000", "\\\u00a0"]
 BANNED_WORDS = ("exit", "exec ")
+RECURSIVE_SCRIPTS = ["function vpr {\n    vpr\n}\nvpr", "function vpa {\n    vpb x\n}\nfunction vpb {\n    vpa $1\n}\nvpa",
+                     "function vpc {\n    vp_argv $(vpc)\n}\nvpc", "function vpd {\n    if vp_status 0 t; then\n        vpd\n    fi\n}\nvpd"]
 
 
 def tame_ranges(line):
@@ -362,6 +366,15 @@ def run(tier, seed):
                       "binary": rng.choice(["debug", "debug", "nochecks"] + (["asan", "asan"] if thorough else []))})
     for _ in range(1000 if thorough else 96):
         cases.append({"kind": "pty", "seed": rng.randrange(1 << 30)})
+    # lines with a range far too large to build, as a word of its own
+    for text in ("vp_argv {1..2147483647}", "vp_argv x{-2147483648..2147483647}y z", "{2000000000..-2000000000..3}"):
+        for mode in ("c", "script"):
+            cases.append({"kind": "line", "line": text, "mode": mode, "binary": "debug"})
+    cases.append({"kind": "line", "line": "for i in {1..2147483647}\n    vp_argv $i\ndone", "mode": "script", "binary": "nochecks"})
+    # scripts whose functions call themselves (directly, through each other, through a substitution) without end
+    for text in RECURSIVE_SCRIPTS:
+        cases.append({"kind": "line", "line": text, "mode": "script", "binary": "debug"})
+        cases.append({"kind": "line", "line": text, "mode": "script", "binary": "nochecks"})
     for _ in range(24 if thorough else 4):
         cases.append({"kind": "pty-interrupt", "what": rng.choice(["alias-listing", "listing-twice", "listing-after-another-command"]),
                       "delay": rng.choice([0.3, 0.6, 1.0])})
